@@ -29,7 +29,7 @@ type animEncInput struct {
 	Durs   []int // milliseconds
 	Opts   animation.EncodeOptions
 	Origin string
-	Choice string // "" | "prefer" | "avoid" | "random": how the size-dependent dispose-candidate decision is overridden (hook)
+	Choice string // "" | "prefer" | "avoid" | "random" | "alt-codec" | "keyframes": how the size-dependent dispose-candidate decision is overridden (hook)
 }
 
 // replayable form of an input history
@@ -69,7 +69,7 @@ func (r animEncReplay) input() animEncInput {
 }
 
 func (in animEncInput) sig() string {
-	s := fmt.Sprintf("%s%s|%dx%d|n%d|lossless=%v|mixed=%v|q%d|k%d,%d|loop%d", in.Origin, map[string]string{"": "", "prefer": "+dispose-bg-forced", "avoid": "+dispose-bg-avoided", "random": "+dispose-bg-by-coin"}[in.Choice], in.CW, in.CH, len(in.Pics), in.Opts.Lossless, in.Opts.AllowMixed, in.Opts.Quality, in.Opts.Kmin, in.Opts.Kmax, in.Opts.LoopCount)
+	s := fmt.Sprintf("%s%s|%dx%d|n%d|lossless=%v|mixed=%v|q%d|k%d,%d|loop%d", in.Origin, map[string]string{"": "", "prefer": "+dispose-bg-forced", "avoid": "+dispose-bg-avoided", "random": "+decisions-by-coin", "alt-codec": "+alt-codec-forced", "keyframes": "+keyframe-fallback-forced"}[in.Choice], in.CW, in.CH, len(in.Pics), in.Opts.Lossless, in.Opts.AllowMixed, in.Opts.Quality, in.Opts.Kmin, in.Opts.Kmax, in.Opts.LoopCount)
 	for i, p := range in.Pics {
 		s += fmt.Sprintf("|%x/%d", hashNRGBA(p)&0xffffff, in.Durs[i])
 	}
@@ -134,9 +134,24 @@ func runAnimEncoder(id, mode string, in animEncInput) (file []byte, line tvEncLi
 	o := in.Opts
 	// both dispose candidates of a sub-frame are valid encodings; the encoder takes the smaller one. The hook lets the
 	// check take the other branch too, whatever the sizes happen to be.
-	verifhook.SetChoice("anim.dispose-background", in.Choice)
+	switch in.Choice {
+	case "prefer", "avoid":
+		verifhook.SetChoice("anim.dispose-background", in.Choice)
+	case "random": // every size-dependent decision by the toss of a seeded coin
+		for _, n := range []string{"anim.dispose-background", "anim.mixed-alt-codec", "anim.keyframe-fallback"} {
+			verifhook.SetChoice(n, "random")
+		}
+	case "alt-codec": // mixed mode: always the codec that was not configured
+		verifhook.SetChoice("anim.mixed-alt-codec", "prefer")
+	case "keyframes": // a key frame whenever the changed area is large enough for the fallback to be tried
+		verifhook.SetChoice("anim.keyframe-fallback", "prefer")
+	}
 	verifhook.SeedChoices(int64(len(in.Pics))*7919 + int64(in.CW*131+in.CH))
-	defer verifhook.SetChoice("anim.dispose-background", "")
+	defer func() {
+		for _, n := range []string{"anim.dispose-background", "anim.mixed-alt-codec", "anim.keyframe-fallback"} {
+			verifhook.SetChoice(n, "")
+		}
+	}()
 	e := animation.NewEncoder(&buf, in.CW, in.CH, &o)
 	if e == nil {
 		return nil, line, fmt.Errorf("NewEncoder returned nil")
@@ -487,7 +502,10 @@ func checkAnimEnc(prop string, args []string) {
 				continue
 			}
 			c := inputs[i]
-			c.Choice = []string{"random", "avoid", "random", "prefer"}[i%4]
+			c.Choice = []string{"random", "avoid", "random", "prefer", "keyframes"}[i%5]
+			if prop == "C18" && c.Opts.AllowMixed && i%2 == 0 {
+				c.Choice = "alt-codec"
+			}
 			inputs = append(inputs, c)
 		}
 	}
